@@ -146,7 +146,7 @@ def run_shard(shard: Dict[str, Any]) -> Acc:
         acc.hist("class", inp["constructor"])
         nontrivial = bool(inp.get("glob")) and (inp.get("cycles", 0) >= 2 or inp.get("type") == "QUTRIT")
         acc.case(bp.phash(inp), nontrivial, sample=inp if i < 3 else None)
-        check_input(inp, acc)
+        common.guarded(acc, check_input, inp, acc, case={"library": inp})
     return acc
 
 
